@@ -313,7 +313,7 @@ class Namespace:
 def features(program):
     """structural facts about a program object (observation only; spec/Pipeline.tla states what each pass must
     establish and keep): G non-trivial loop guard, I if-statements, M a variable assigned more than once in the loop
-    body, R an atom that is not `variable cop number', N an atom that is not `variable == number' or a negation,
+    body, R an atom that is not `variable cop number', N an atom that is not `variable == number' (negations of such atoms are normal),
     C an assignment with a condition, P a Normal/Uniform/Laplace/Exponential draw whose parameters mention variables"""
     from program.ifstatem import IfStatem
     from program.condition import TrueCond, Atom, And, Or, Not
@@ -358,7 +358,6 @@ def features(program):
             yield from atoms(c.cond1)
             yield from atoms(c.cond2)
         elif isinstance(c, Not):
-            f.add("N")
             yield from atoms(c.cond)
     for c in conds:
         for a in atoms(c):
